@@ -49,7 +49,7 @@ def model(draw, used):
         tbl_kind = "titlecase"
     tbl = {"titlecase": cls.lower(), "titlecase_tbl": cls.lower() + "_tbl", "snake": "_".join(w.lower() for w in words), "unrelated": "tbl" + cls[:2].lower() + "s"}[tbl_kind]
     n = draw(st.integers(1, 5))
-    ns = draw(st.lists(gen_ir.names.filter(lambda s: s != "id" and not s.endswith("_id") and not s.endswith("_name")), min_size=n, max_size=n, unique=True))
+    ns = draw(st.lists(gen_ir.names.filter(lambda s: s != "id" and "_id" not in s and "_name" not in s and "id_" not in s), min_size=n, max_size=n, unique=True))
     cols = []
     for c in ns:
         t = draw(st.sampled_from(sorted(COLS)))
